@@ -231,9 +231,12 @@ type ApplyStageRunner struct {
 	output  chan<- *BlockItem
 	errors  chan<- error
 	metrics *PipelineMetrics
-	done    chan struct{}
-	running bool
-	mu      sync.Mutex
+	// onProcessed, if set, is told how many items just finished the apply
+	// stage (before they are forwarded to the output channel).
+	onProcessed func(n int)
+	done        chan struct{}
+	running     bool
+	mu          sync.Mutex
 }
 
 // NewApplyStageRunner creates a new runner for the apply stage.
@@ -330,6 +333,9 @@ func (r *ApplyStageRunner) run(ctx context.Context) {
 			// that became ready). This eliminates the data loss vulnerability from
 			// the previous callback-based approach where items could be dropped if
 			// the pending queue overflowed.
+			if r.onProcessed != nil && len(processed) > 0 {
+				r.onProcessed(len(processed))
+			}
 			for _, p := range processed {
 				r.forwardItem(ctx, p)
 			}
